@@ -37,7 +37,7 @@ THEOREMS = [
         "am_rigid_limit forms_agree forms_agree_cbtf accImp_additive forms_agree_empty_qset "
         "pv_empty_qset_order_matters layout_injective layout_in_bounds "
         # Props/C15b (cb.cbtf in full), C15c (ntfl complete), C15d (routes, low-frequency expansion), C15e (limit)
-        "cbtf_eom cbtf_frc_blocks cbtf_force_eq_am_times_accel cbtf_force_zero_freq cbtf_zero_freq cbtf_outputs_def cbtf_accel_eq calcAM_pv_eq_cbtfAM calcAM_pv_zero_freq cbtf_save_transparent cbtf_save_not_keyed cbtfE_force_eq_am_times_accel cbtfE_vs_general flippv_partitions bset_isPartition parallel_sum_comm nt_reciprocity nt_reciprocity_matrix nt_force_operator_symmetric ntfl_congruence ntfl_R_trace_invariant ntfl_scaling ntfl_R_not_invariant ntfl_pointwise slice3F_pack3F ntflColF_spec ntA_col packAs_vector packAs_matrix routes_agree_general routes_agree_solvers routes_difference routes_agree_beyond_cb routes_disagree_noncb drm_zero_freq dyn_stiffness_schur_expansion am_low_frequency_expansion lowfreq_regular_tendsto am_low_frequency_limit cb_transform_blocks cb_form_determinate cbtf_low_frequency_expansion cbtf_zero_freq_is_limit"
+        "cbtf_eom cbtf_frc_blocks cbtf_force_eq_am_times_accel cbtf_force_zero_freq cbtf_zero_freq cbtf_outputs_def cbtf_accel_eq calcAM_pv_eq_cbtfAM calcAM_pv_zero_freq cbtf_save_transparent cbtf_save_not_keyed cbtfE_force_eq_am_times_accel cbtfE_vs_general flippv_partitions bset_isPartition parallel_sum_comm nt_reciprocity nt_reciprocity_matrix nt_force_operator_symmetric ntfl_congruence ntfl_R_trace_invariant ntfl_scaling ntfl_R_not_invariant ntfl_pointwise slice3F_pack3F ntflColF_spec ntA_col packAs_vector packAs_matrix routes_agree_general routes_agree_solvers routes_difference routes_agree_beyond_cb routes_disagree_noncb drm_zero_freq drm_congruence forms_agree_scaled_selection dyn_stiffness_schur_expansion am_low_frequency_expansion lowfreq_regular_tendsto am_low_frequency_limit cb_transform_blocks cb_form_determinate cbtf_low_frequency_expansion cbtf_zero_freq_is_limit"
     ).split()
 ]
 TRUSTED = [
@@ -54,7 +54,9 @@ RULE = (
     "ntfl-arrays: random complex non-symmetric SAM/LAM/As with 1..6 boundary DOF and 1..5 frequencies; ntfl-exact: Gaussian "
     "dyadic SAM/As with SAM+LAM a (permuted) diagonal of units times powers of two, 1..5 boundary DOF; calcAM-drm: "
     "random free-free symmetric models (proportional, modal, non-proportional damping) through the default route and "
-    "non-symmetric matrices through fs=FreqDirect/SolveUnc, selection and dense recovery matrices; calcAM-pv and cbtf: random "
+    "non-symmetric matrices through fs=FreqDirect/SolveUnc; damping also mass-proportional and Rayleigh (rigid-body modes damped); "
+    "recovery matrices: 0/1 selections, dense rows, and one-entry rows that are -1 (mixed signs) or scaled (39.37, 12, "
+    "non-uniform); calcAM-pv and cbtf: random "
     "matrices (symmetric and not, several unit systems, Craig-Bampton form or with a K_bq the code ignores) with scattered "
     "unordered b-set, f=0, integer frequency vectors and empty q-set included; cbtf additionally: `a` as vector / one column / "
     "b x freq matrix, save = None / {} / left by an earlier call with another acceleration and another frequency vector (same "
@@ -99,7 +101,9 @@ MANIFEST = {
     "(`ntfl_congruence`; R itself is not invariant, its trace is), units (`ntfl_scaling`). Routes: the recovery-matrix route "
     "with any solver is the Schur complement of the FULL impedance for a b-set anywhere in any order, no Craig-Bampton form "
     "(`routes_agree_general`, `routes_agree_solvers`), the partition-vector route differs by exactly the K_bq/K_qb terms "
-    "(`routes_difference`, `routes_agree_beyond_cb`, counterexample `routes_disagree_noncb`; `forms_agree*` as before). "
+    "(`routes_difference`, `routes_agree_beyond_cb`, counterexample `routes_disagree_noncb`; `forms_agree*` as before); a "
+    "recovery matrix S T transforms the apparent mass by the congruence S^-T AM S^-1, for rows s_i e_i' (reversed DOF, other "
+    "units) entry by entry AM_ij / (s_i s_j) (`drm_congruence`, `forms_agree_scaled_selection`). "
     "Low frequency: AM(s) = M_rb - s^2 (M_bi + chi M_ii) Z_ii(s)^-1 (M_ib + M_ii psi) as a rational-function identity "
     "(`am_low_frequency_expansion`), hence AM -> M_rb as W -> 0 over any normed field (`am_low_frequency_limit`, Filter.Tendsto), "
     "the Craig-Bampton model of such a structure has m_bb = M_rb and k_bb = k_bq = 0 (`cb_form_determinate`) and what cbtf "
@@ -203,11 +207,20 @@ def _gen_struct(rng, r, ni, phib, damping):
         z = rng.uniform(0.3 * zeta, 2 * zeta, n)
         G = M @ ph
         B = G @ np.diag(2 * z * np.sqrt(lam)) @ G.T
+    elif damping == "massprop":
+        # mass-proportional (Rayleigh alpha) damping: the rigid-body modes are DAMPED (B phi != 0); uncoupled after pre_eig
+        B = (2 * zeta * 2 * np.pi * float(rng.uniform(5.0, 40.0))) * M
+    elif damping == "rayleigh":
+        B = (2 * zeta * 2 * np.pi * float(rng.uniform(5.0, 40.0))) * M + 2 * zeta / (2 * np.pi * float(rng.uniform(15.0, 60.0))) * K
     else:
         B0 = _rand_spd(rng, n, 0.2, 3.0) * (2 * zeta * 2 * np.pi * 25)
         B = P.T @ B0 @ P
     B = (B + B.T) / 2
     return M, B, K, phi
+
+
+DAMPINGS = ("prop", "modal", "nonprop", "massprop", "rayleigh")
+RB_DAMPED = ("massprop", "rayleigh")  # damping that acts on the rigid-body modes: no finite apparent mass at f = 0
 
 
 def _cb_form(M, B, K, r):
@@ -232,7 +245,7 @@ def _gen_pair(rng, it):
     determinate = rng.random() < 0.6
     nrb = r if determinate else int(rng.integers(1, r + 1))
     phib = np.eye(r) if nrb == r else rng.standard_normal((r, nrb))
-    damping = ("prop", "modal", "nonprop")[it % 3]
+    damping = DAMPINGS[it % 5]
     S = _gen_struct(rng, r, int(rng.integers(1, 6)), phib, damping)
     L = _gen_struct(rng, r, int(rng.integers(1, 6)), phib, damping)
     nf = int(rng.integers(3, 8))
@@ -405,6 +418,19 @@ def _corr_ntfl(ctx, drv, frclim):
     ctx.extra["ntfl_arrays_worst_relerr"] = worst
 
 
+def _signed_scaled(rng, T, signed):
+    """one entry per row, but not +1: model DOF defined opposite to the interface coordinate (-1; mixed signs), or interface
+    coordinates in other units than the model (39.37 in/m, 12 in/ft, non-uniform) - rows s_i e_i' of a recovery matrix"""
+    r = T.shape[0]
+    if signed:
+        sg = rng.choice([-1.0, 1.0], r)
+        sg[int(rng.integers(0, r))] = -1.0
+        return sg[:, None] * T, "signed"
+    sc = rng.choice([39.37, -39.37, 12.0, 1.0, 0.0254 * 39.37], r)
+    sc[int(rng.integers(0, r))] = 39.37
+    return sc[:, None] * T, "scaled"
+
+
 def _drm_cases(ctx):
     rng = ctx.np_rng(152)
     n = ctx.pick(300, 3000)
@@ -420,7 +446,8 @@ def _drm_cases(ctx):
         if route in ("default", "solveunc-h-pre"):
             nrb = r if rng.random() < 0.5 else int(rng.integers(1, r + 1))
             phib = np.eye(r) if nrb == r else rng.standard_normal((r, nrb))
-            M, B, K, phi_rb = _gen_struct(rng, r, int(rng.integers(1, 6)), phib, ("prop", "modal", "nonprop")[it % 3])
+            dk = DAMPINGS[(it // 6) % 5]
+            M, B, K, phi_rb = _gen_struct(rng, r, int(rng.integers(1, 6)), phib, dk)
             n_ = M.shape[0]
             if route == "solveunc-h-pre" or it % 7 == 3:
                 # one heavy dashpot in a lightly damped structure: the elastic roots mix over-damped (real) and
@@ -445,6 +472,8 @@ def _drm_cases(ctx):
                     p = rng.permutation(n_)
                     T = T[:, p]  # scattered selection
                 tk = "select"
+                if it % 5 >= 3:
+                    T, tk = _signed_scaled(rng, T, it % 5 == 3)
         else:
             n_ = r + int(rng.integers(0, 5))
             M = _rand_spd(rng, n_, 0.5, 4.0) + 0.15 * rng.standard_normal((n_, n_))
@@ -454,6 +483,8 @@ def _drm_cases(ctx):
             dense = bool(rng.random() < 0.4)
             T = rng.standard_normal((r, n_)) if dense else np.eye(r, n_)[:, rng.permutation(n_)]
             tk = "dense" if dense else "select"
+            if not dense and rng.random() < 0.4:
+                T, tk = _signed_scaled(rng, T, bool(rng.random() < 0.5))
         nf = int(rng.integers(2, 6))
         freq = np.sort(rng.uniform(1.0, 150.0, nf))
         if it % 4 == 1:
@@ -1047,7 +1078,8 @@ def correspondence(ctx):
     ]
     ctx.require_branches(
         ["ntfl-arrays:b=%d" % b for b in range(1, 7)]
-        + ["calcAM-drm:default:select", "calcAM-drm:default:dense", "calcAM-drm:freqdirect:select",
+        + ["calcAM-drm:default:select", "calcAM-drm:default:dense", "calcAM-drm:default:signed", "calcAM-drm:default:scaled",
+           "calcAM-drm:freqdirect:select",
            "calcAM-drm:freqdirect:dense", "calcAM-drm:solveunc:select", "calcAM-pv:sym", "calcAM-pv:nonsym",
            "calcAM-pv:empty-qset", "calcAM-pv:empty-qset-unsorted", "calcAM-pv:f=0", "calcAM-pv:column-by-column", "layout",
            "flippv", "packa:ok", "packa:err", "packas:ok", "packas:err", "ntfl-exact:diag", "ntfl-exact:perm",
@@ -1172,12 +1204,19 @@ def _oracle_pair(p, frclim, ode, cb):
             return X
 
         C = [asm(S[i], L[i]) for i in range(3)]
-        TAMc = frclim.calcAM([*C, np.eye(r, n)], freq)
+        if p["damping"] in RB_DAMPED:
+            # source and load carry DIFFERENT mass-proportional factors: the assembled damping is not proportional, the complex
+            # eigenproblem behind SolveUnc has (nearly defective) zero roots for the damped rigid-body modes and loses digits
+            # (measured 4e-9; an accuracy matter of the eigen-solver, property C02) - the assembled system goes through the
+            # direct solver; the default route is exercised on source and load themselves above
+            TAMc = frclim.calcAM([*C, np.eye(r, n)], freq, fs=ode.FreqDirect(*C))
+        else:
+            TAMc = frclim.calcAM([*C, np.eye(r, n)], freq)
         skipped += _chk(fails, "tam-vs-coupled-apparent-mass-" + tag,
                         "calcAM of the assembled system != SAM + LAM", inp, TAMc, SAMn + LAMn, call, 1)
 
         # --- f = 0 and f -> 0: rigid-body mass (statically determinate interface) ---------
-        if p["nrb"] == r:
+        if p["nrb"] == r and p["damping"] not in RB_DAMPED:
             # `am_low_frequency_expansion`, restated with numpy at EVERY frequency of the pair:
             # AM(W) = M_rb + W^2 (M_bi + psi' M_ii) (K_ii + iW B_ii - W^2 M_ii)^-1 (M_ib + M_ii psi)
             for nm, X, phi, cx in (("source", S, p["phis"], cs), ("load", L, p["phil"], cl)):
@@ -1451,14 +1490,21 @@ def _oracle_routes(ctx, rng, frclim, ode):
             ctx.failures.append(_fdict(t))
 
 
-def _oracle_general_T(p, rng, frclim):
-    """dense recovery matrices on both sides: the interface is T_s x_s = T_l x_l"""
+def _oracle_general_T(p, rng, frclim, mode="dense", Ts=None, Tl=None):
+    """recovery matrices on both sides that are not 0/1 selections: the interface is T_s x_s = T_l x_l.
+    dense: perturbed selections; signed: rows -e_i' / +e_i' (a model DOF defined opposite to the interface coordinate);
+    scaled: rows s_i e_i' (interface coordinates in other units than the model, non-uniform)"""
     fails = []
     r, freq, Fs = p["r"], p["freq"], p["Fs"]
     S, L = p["S"], p["L"]
     ns, nl = S[0].shape[0], L[0].shape[0]
-    Ts = np.eye(r, ns) + 0.3 * rng.standard_normal((r, ns))
-    Tl = np.eye(r, nl) + 0.3 * rng.standard_normal((r, nl))
+    if Ts is None:
+        if mode == "dense":
+            Ts = np.eye(r, ns) + 0.3 * rng.standard_normal((r, ns))
+            Tl = np.eye(r, nl) + 0.3 * rng.standard_normal((r, nl))
+        else:
+            Ts, _ = _signed_scaled(rng, np.eye(r, ns), mode == "signed")
+            Tl, _ = _signed_scaled(rng, np.eye(r, nl), mode == "signed")
     with warnings.catch_warnings():
         warnings.simplefilter("ignore")
         A, F, As, cz = _coupled_numpy(S, L, Ts, Tl, Fs, freq)
@@ -1468,13 +1514,21 @@ def _oracle_general_T(p, rng, frclim):
         call = np.maximum.reduce([cz, cs, cl, ct])
         nt = frclim.ntfl([*S, Ts], [*L, Tl], As, freq)
     tag = ("multi-dof-" if r > 1 else "single-dof-") + p["damping"]
-    inp = {"kind": "pair-dense-T", "r": r, "damping": p["damping"], "Ms": _enc(S[0]), "Bs": _enc(S[1]), "Ks": _enc(S[2]),
-           "Ml": _enc(L[0]), "Bl": _enc(L[1]), "Kl": _enc(L[2]), "freq": freq.tolist(), "Fs": _enc(Fs),
+    inp = {"kind": "pair-dense-T", "mode": mode, "r": r, "damping": p["damping"], "Ms": _enc(S[0]), "Bs": _enc(S[1]),
+           "Ks": _enc(S[2]), "Ml": _enc(L[0]), "Bl": _enc(L[1]), "Kl": _enc(L[2]), "freq": freq.tolist(), "Fs": _enc(Fs),
            "Ts": _enc(Ts), "Tl": _enc(Tl)}
-    sk = _chk(fails, "ntfl-A-vs-direct-coupling-dense-T-" + tag, "ntfl interface acceleration differs from the coupled solve",
+    sk = _chk(fails, "ntfl-A-vs-direct-coupling-%s-T-%s" % (mode, tag), "ntfl interface acceleration differs from the coupled solve",
               inp, nt.A, A, call, 1)
-    sk += _chk(fails, "ntfl-F-vs-direct-coupling-dense-T-" + tag, "ntfl interface force differs from the coupled solve",
+    sk += _chk(fails, "ntfl-F-vs-direct-coupling-%s-T-%s" % (mode, tag), "ntfl interface force differs from the coupled solve",
                inp, nt.F, F, call, 1)
+    if mode != "dense":
+        # the apparent masses themselves: inverse of the boundary accelerance T H T' (for rows s_i e_i': s_i s_j H_ij)
+        sk += _chk(fails, "calcAM-drm-default-vs-definition-%s-T-%s" % (mode, tag),
+                   "calcAM (source) differs from inv(T Z^-1 T' (-W^2)) for a recovery matrix with rows s_i e_i'",
+                   dict(inp, route="source"), nt.SAM, SAMn, cs, 1)
+        sk += _chk(fails, "calcAM-drm-default-vs-definition-%s-T-%s" % (mode, tag),
+                   "calcAM (load) differs from inv(T Z^-1 T' (-W^2)) for a recovery matrix with rows s_i e_i'",
+                   dict(inp, route="load"), nt.LAM, LAMn, cl, 1)
     return fails, sk
 
 
@@ -1606,11 +1660,11 @@ def search(ctx, hints):
         p = _gen_pair(rng, it)
         try:
             fails, sk = _oracle_pair(p, frclim, ode, cb)
-            if it % 3 == 0:
-                f2, sk2 = _oracle_general_T(p, rng, frclim)
-                fails += f2
-                sk += sk2
-                ctx.count("oracle:dense-T-pairs")
+            mode = ("dense", "signed", "scaled")[it % 3]
+            f2, sk2 = _oracle_general_T(p, rng, frclim, mode)
+            fails += f2
+            sk += sk2
+            ctx.count("oracle:%s-T-pairs" % mode)
         except Exception as e:  # noqa: BLE001
             import traceback
 
@@ -1681,18 +1735,7 @@ def replay(ctx, data):
             except Exception as e:  # noqa: BLE001
                 return {"family": f["family"], "what": "raised %s: %s" % (type(e).__name__, e), "input": "(as recorded)"}
         else:
-            Ts, Tl = _dec(inp["Ts"]), _dec(inp["Tl"])
-
-            class _Fixed:
-                def __init__(self, mats):
-                    self.mats = list(mats)
-
-                def standard_normal(self, shape):
-                    return self.mats.pop(0)
-
-            ns, nl = S[0].shape[0], L[0].shape[0]
-            fixed = _Fixed([(Ts - np.eye(r, ns)) / 0.3, (Tl - np.eye(r, nl)) / 0.3])
-            fails, _ = _oracle_general_T(p, fixed, frclim)
+            fails, _ = _oracle_general_T(p, None, frclim, inp.get("mode", "dense"), _dec(inp["Ts"]), _dec(inp["Tl"]))
         same = [t for t in fails if t[0] == f["family"]]
         pickf = same or fails
         if pickf:
